@@ -38,6 +38,7 @@ SIZE = {
     'max_results:string': ([('max_results', 'string')], False),
     'both:int32': ([('page_size', 'int32'), ('max_results', 'int32')], True),
     'both:max_results-string': ([('page_size', 'int32'), ('max_results', 'string')], None),  # ambiguous under the statement
+    'both:page_size-string': ([('page_size', 'string'), ('max_results', 'int32')], True),     # the legacy field alone qualifies
 }
 # layout -> list of (name, kind); kind in msg, scalar, map, single
 LAYOUT = {
@@ -169,6 +170,15 @@ def jobs_for(ctx, only=None):
                                          rpc=rpc, py=py, field=fld, depth=depth, max_items=4 if ctx.thorough else 3,
                                          only_history=(only or {}).get('history'), seed=ctx.seed),
                          _kind='hist', _item_kind=kind, _client=client))
+    # tokens are opaque: a cursor-style server may hand out the *same* non-empty token page after page
+    for client in CLIENTS:
+        if only and (only.get('kind') != 'history' or only['item_kind'] != 'msg/constant-token' or only['client'] != client):
+            continue
+        rpc, py, fld = KINDS['msg']
+        jobs.append(dict(id=f'hist/msg/{client}/constant-token', req=hreq, probe='mc.probes.paging',
+                         probe_args=dict(mode='history', package=pkg, proto_package=P, kind='msg', client=client, rpc=rpc, py=py, field=fld,
+                                         depth=4, max_items=2, tokens='constant', only_history=(only or {}).get('history'), seed=ctx.seed),
+                         _kind='hist', _item_kind='msg/constant-token', _client=client))
     return jobs
 
 
